@@ -15,8 +15,8 @@
 (* removed when a pin is replaced in place, extras are the union over all recorded requirements.       *)
 EXTENDS PipModel, TLC, Json, IOUtils
 CONSTANT MaxRounds
-VARIABLES U, root, states, phase, rounds, result
-prvars == <<U, root, states, phase, rounds, result>>
+VARIABLES U, root, states, phase, rounds, result, repinned
+prvars == <<U, root, states, phase, rounds, result, repinned>>
 MatchTab == TLCEval(JsonDeserialize(IOEnv.VERIF_MATCH))      \* [match, matchpre : Seq(Seq(BOOLEAN)), haspre : Seq(BOOLEAN)]
 Match(r, i) == MatchTab.match[r][i]
 MatchPre(r, i) == MatchTab.matchpre[r][i]
@@ -129,7 +129,7 @@ Start == /\ phase = "start"
                 i == StartCrit(DepsFor(root.name, root.v, {}), s0)
             IN IF i.ok THEN states' = <<i.st, i.st>> /\ phase' = "rounds" /\ result' = result
                ELSE states' = <<s0>> /\ phase' = "impossible" /\ result' = [gerr |-> TRUE, nodes |-> <<>>, edges |-> {}]
-         /\ rounds' = 0 /\ UNCHANGED <<U, root>>
+         /\ rounds' = 0 /\ UNCHANGED <<U, root, repinned>>
 Round == /\ phase = "rounds" /\ rounds < MaxRounds /\ Unsatisfied(Top) # {}
          /\ LET st == Top
                 name == Chosen(st)
@@ -139,15 +139,17 @@ Round == /\ phase = "rounds" /\ rounds < MaxRounds /\ Unsatisfied(Top) # {}
                         t == TryCand(st, name, v)
                         st2 == [mapping |-> SetPin(st.mapping, name, v), criteria |-> Put(st.criteria, t.upd)]
                     IN states' = Append(SubSeq(states, 1, Len(states) - 1), st2) \o <<st2>> /\ phase' = phase /\ result' = result
+                       /\ repinned' = (repinned \/ Pin(st, name) # 0)          \* a pin replaced in place (history variable)
                ELSE LET u == Unwind(states) IN
-                    IF u = <<>> THEN states' = states /\ phase' = "impossible" /\ result' = [gerr |-> TRUE, nodes |-> <<>>, edges |-> {}]
-                    ELSE states' = u /\ phase' = phase /\ result' = result
+                    /\ repinned' = repinned
+                    /\ IF u = <<>> THEN states' = states /\ phase' = "impossible" /\ result' = [gerr |-> TRUE, nodes |-> <<>>, edges |-> {}]
+                       ELSE states' = u /\ phase' = phase /\ result' = result
          /\ rounds' = rounds + 1 /\ UNCHANGED <<U, root>>
 Finish == /\ phase = "rounds" /\ Unsatisfied(Top) = {}
           /\ phase' = "done" /\ result' = [gerr |-> FALSE] @@ BuildGraph(Top)
-          /\ UNCHANGED <<U, root, states, rounds>>
+          /\ UNCHANGED <<U, root, states, rounds, repinned>>
 PRNext == Start \/ Round \/ Finish
-PRInit(u, rt) == U = u /\ root = rt /\ states = <<>> /\ phase = "start" /\ rounds = 0 /\ result = [gerr |-> FALSE, nodes |-> <<>>, edges |-> {}]
+PRInit(u, rt) == U = u /\ root = rt /\ states = <<>> /\ phase = "start" /\ rounds = 0 /\ result = [gerr |-> FALSE, nodes |-> <<>>, edges |-> {}] /\ repinned = FALSE
 
 (* ---- what the design guarantees ---- *)
 RoundsBounded == ~(phase = "rounds" /\ rounds = MaxRounds /\ Unsatisfied(Top) # {})
@@ -160,6 +162,11 @@ GraphOf == [nodes |-> result.nodes, edges |-> SetToSeq(result.edges)]
 KnownDeviations == {"extra-guarded-requirement-missing-when-extras-arrive-after-the-pin", "prerelease-of-exclusive-upper-bound-admitted",
                     "prerelease-admitted-by-requirement-of-an-abandoned-version", "edge-from-extra-guarded-requirement-enabled-by-an-abandoned-version"}
 DoneLaws == phase = "done" => \A x \in PipViolations(U, root, GraphOf) : x[1] \in KnownDeviations
+\* where the deviations come from: as long as no pin was ever replaced in place, the only way a returned graph can break C08
+\* is the interval reading of an exclusive upper bound (F21) or extras that arrive after the pin (F20, which needs no
+\* replacement: the pin simply stays); the stale-criteria deviations (F24) need a replaced pin
+DoneLawsNoRepin == (phase = "done" /\ ~repinned) => \A x \in PipViolations(U, root, GraphOf) :
+                       x[1] \in {"prerelease-of-exclusive-upper-bound-admitted", "extra-guarded-requirement-missing-when-extras-arrive-after-the-pin"}
 \* stated WITHOUT the deviations: expected to fail (design-level form of the findings)
 DoneStrict == phase = "done" => PipViolations(U, root, GraphOf) = {}
 =============================================================================
